@@ -281,6 +281,64 @@ def gen_tap(rng):
     return scn
 
 
+def gen_tap2(rng):
+    """two-stage tap scenario: the first run computes the tweaked output key for an internal key and a script list;
+    the harness then builds a funding transaction paying to that key (at a seeded output index) and a spending
+    transaction, and runs tap again on them in key-path or script-path mode"""
+    from . import spend
+    ik = rng.below(len(spend.KEYS))
+    n = rng.range(1, 5)
+    scripts = []
+    for _ in range(n):
+        scripts.append(rng.choice(["[OP_1]", "[OP_DUP OP_DROP OP_1]", "[%s OP_CHECKSIG]" % spend.pub(rng.below(len(spend.KEYS)))[1].hex(),
+                                   "[OP_2 OP_EQUAL]", "[OP_SHA256 %s OP_EQUAL]" % rng.bytes(32).hex()]))
+    scn = {"tool": "tap", "tap2": True, "ikey": spend.pub(ik)[1].hex(), "scripts": scripts, "sched": [], "stack": [], "env": {},
+           "vout": rng.weighted([(4, 0), (3, 1), (2, 2)]), "extra_outputs": rng.range(0, 2),
+           "mode": rng.choice(["keypath", "script", "script"]), "spend_index": rng.below(n), "spend_args": [rng.choice(["%SIG%", "02", "0x"]) for _ in range(rng.below(3))],
+           "sig": rng.choice([None, None, "11" * 64, "22" * 65]), "tty2": [rng.below(2), rng.below(2)], "prefix": rng.choice([None, None, "tb", "bcrt"])}
+    scn["faults"] = gen_faults(rng, 0, tool="tap", interactive=False)
+    return scn
+
+
+def run_tap2(ctx, scn, ev):
+    from . import spend, tx as T
+    import re as _re
+    base = [scn["ikey"], str(len(scn["scripts"]))] + list(scn["scripts"])
+    w1 = proto.new_world("tap", base, tty=(True, True))
+    w1["files"] = [{"path": ".btcdeb_history", "exists": True, "content": ""}]
+    r1 = ctx.run(w1)
+    ev.hashes.append(r1.hash())
+    judge(ev, r1, scn)
+    m = _re.search(r"Tweaked pubkey = ([0-9a-f]{64})", r1.stderr().decode(proto.L1))
+    if not m or not r1.normal():
+        ev.counters["tap2_stage1_no_key"] += 1
+        return r1
+    q = bytes.fromhex(m.group(1))
+    outs = [T.TxOut(5000 + 7 * k, bytes([0x00, 0x14]) + bytes([0x30 + k]) * 20) for k in range(max(scn["extra_outputs"], scn["vout"]))]
+    outs.insert(min(scn["vout"], len(outs)), T.TxOut(100000, bytes([0x51, 0x20]) + q))
+    fund = T.Tx(2, [T.TxIn(b"\x77" * 32, 0, b"\x51", 0xfffffffe)], outs, 0)
+    vout = min(scn["vout"], len(outs) - 1)
+    tx = T.Tx(2, [T.TxIn(fund.txid(), vout, b"", 0xffffffff)], [T.TxOut(90000, bytes([0x00, 0x14]) + b"\x42" * 20)], 0)
+    argv = ["--tx=" + tx.ser().hex(), "--txin=" + fund.ser().hex()]
+    if scn.get("sig"):
+        argv.append("--sig=" + scn["sig"])
+    if scn.get("prefix"):
+        argv.append("--addrprefix=" + scn["prefix"])
+    argv += base
+    if scn["mode"] == "script":
+        argv += [str(scn["spend_index"])] + list(scn["spend_args"])
+    w2 = proto.new_world("tap", argv, tty=tuple(scn["tty2"]))
+    w2["files"] = [{"path": ".btcdeb_history", "exists": True, "content": ""}]
+    session.apply_faults(w2, scn.get("faults", []))
+    r2 = ctx.run(w2)
+    ev.hashes.append(r2.hash())
+    judge(ev, r2, scn)
+    ev.counters["probe:tap_spend_stage_reached"] += 1
+    if b"Pubkey matches" in r2.stderr() or r2.exit_code() == 0:
+        ev.counters["probe:tap_spend_key_matched"] += 1
+    return r2
+
+
 def gen_btcc(rng):
     n = rng.weighted([(1, 0), (6, rng.range(1, 6)), (2, rng.range(7, 30))])
     argv = []
@@ -330,13 +388,15 @@ def gen(rng, tier, idx):
 def _gen(rng, tier, idx):
     if idx < len(ENUM):
         return enum_scenario(idx)
-    k = rng.weighted([(66, "interactive"), (12, "noninteractive"), (12, "tap"), (10, "btcc")])
+    k = rng.weighted([(64, "interactive"), (12, "noninteractive"), (9, "tap"), (5, "tap2"), (10, "btcc")])
     if k == "interactive":
         return gen_btcdeb_interactive(rng)
     if k == "noninteractive":
         return gen_btcdeb_noninteractive(rng)
     if k == "tap":
         return gen_tap(rng)
+    if k == "tap2":
+        return gen_tap2(rng)
     return gen_btcc(rng)
 
 
@@ -473,10 +533,14 @@ def judge(ev, run, scn, flavour="asan"):
 
 def evaluate(ctx, scn):
     ev = Eval()
-    w = world_of(scn)
-    run = ctx.run(w)
-    ev.hashes.append(run.hash())
-    judge(ev, run, scn)
+    if scn.get("tap2"):
+        run = run_tap2(ctx, scn, ev)
+        w = None
+    else:
+        w = world_of(scn)
+        run = ctx.run(w)
+        ev.hashes.append(run.hash())
+        judge(ev, run, scn)
     fired = []
     for s in run.segs:
         for c in s.seam:
@@ -520,7 +584,7 @@ def evaluate(ctx, scn):
     ev.nontrivial = nlines >= 3 or bool(fired)
     kinds = tuple((s.line or "").split(" ")[0][:12] for s in run.segs[1:])
     ev.cov = [(scn.get("tool", "btcdeb"), kinds, tuple(sorted(set(fired))), run.classify()[0])]
-    if scn.get("valgrind"):
+    if scn.get("valgrind") and w is not None:
         rv = ctx.run(w, flavour="valgrind")
         ev.hashes.append(rv.hash())
         ev.counters["valgrind_runs"] += 1
@@ -532,7 +596,7 @@ def evaluate(ctx, scn):
             judge(ev2, rv, scn, "valgrind")
             for v in ev2.violations:
                 ev.add(v.prop, v.clause, "valgrind:" + v.site, "[valgrind, -O2 build] " + v.message)
-    if "plain" in ctx.flavours and ctx.default_flavour != "plain" and not scn.get("valgrind"):
+    if "plain" in ctx.flavours and ctx.default_flavour != "plain" and not scn.get("valgrind") and w is not None:
         # thorough tier: the same plan in the optimised build; a divergence is a lead, only a crash is a violation
         r2 = ctx.run(w, flavour="plain")
         ev.hashes.append(r2.hash())
